@@ -905,6 +905,10 @@ func (fc *FuncCtx) pkgVar(o *types.Var, st *St) Term {
 	}
 	name := "pkgvar_" + o.Pkg().Name() + "_" + o.Name()
 	fc.declare(name, so)
+	if so.Kind == KMap && fc.pkgMapVals[name] == nil {
+		// a package-level map literal: remember the values it can hold (read from the literal on every run)
+		fc.collectMapLiteralValues(o, name, st)
+	}
 	return T(name, so)
 }
 
@@ -1085,6 +1089,14 @@ func (fc *FuncCtx) indexValue(base, idx Term, st *St, at ast.Node, commaOk bool)
 		dom := fc.mapDom(st, base.Sort.Key, base.Sort.Elem)
 		val := fc.mapVal(st, base.Sort.Key, base.Sort.Elem)
 		has := Select(Select(dom, base), idx)
+		if vals, ok := fc.pkgMapVals[base.S]; ok && len(vals) > 0 {
+			// lookup in a package-level map literal: a present value is one of the literal's values
+			var ds []Term
+			for _, v := range vals {
+				ds = append(ds, Eq(Select(Select(val, base), idx), v))
+			}
+			st.assume(Implies(has, Or(ds...)))
+		}
 		v := Ite(has, Select(Select(val, base), idx), fc.zeroOfSort(base.Sort.Elem, nil))
 		return []Term{v, has}
 	case KArray:
@@ -1393,5 +1405,56 @@ func (fc *FuncCtx) execTypeSwitchAny(x *ast.TypeSwitchStmt, v Term, st *St, c ct
 		fc.execStmts(def.Body, 0, s2, inner)
 	} else {
 		c.next(s2)
+	}
+}
+
+// collectMapLiteralValues evaluates the value expressions of a package-level map literal (identifiers of
+// union constructor variables and constants only).
+func (fc *FuncCtx) collectMapLiteralValues(o *types.Var, name string, st *St) {
+	if fc.pkgMapVals == nil {
+		fc.pkgMapVals = map[string][]Term{}
+	}
+	fc.pkgMapVals[name] = []Term{}
+	p := fc.E.Pkgs[o.Pkg().Path()]
+	if p == nil {
+		return
+	}
+	for _, f := range p.Syntax {
+		for _, d := range f.Decls {
+			gd, ok := d.(*ast.GenDecl)
+			if !ok || gd.Tok != token.VAR {
+				continue
+			}
+			for _, sp := range gd.Specs {
+				vs := sp.(*ast.ValueSpec)
+				for i, nm := range vs.Names {
+					if p.TypesInfo.Defs[nm] != o || i >= len(vs.Values) {
+						continue
+					}
+					cl, ok := vs.Values[i].(*ast.CompositeLit)
+					if !ok {
+						return
+					}
+					var vals []Term
+					fc.infoStack = append(fc.infoStack, p.TypesInfo)
+					for _, el := range cl.Elts {
+						kv, ok := el.(*ast.KeyValueExpr)
+						if !ok {
+							vals = nil
+							break
+						}
+						if id, ok := kv.Value.(*ast.Ident); ok {
+							vals = append(vals, fc.evalIdent(id, st))
+						} else {
+							vals = nil
+							break
+						}
+					}
+					fc.infoStack = fc.infoStack[:len(fc.infoStack)-1]
+					fc.pkgMapVals[name] = vals
+					return
+				}
+			}
+		}
 	}
 }
